@@ -53,6 +53,33 @@ def run(ctx):
         if len(ctx.samples) < 3 and exp.unknowns:
             ctx.sample({'src': c['src'][:300], 'expected_unknowns': exp.unknowns})
     corr.t2t(ctx, cases, results, proj=('outcome', 'unknowns', 'text'), limit=ctx.scale(900, 20000))
+    shell_cases(ctx)
+
+def shell_list(case):
+    """the shell's --list-unknown prints the list of the library, one name per line"""
+    import shellrun
+    r = shellrun.run_shell({'files': {'d.tex': case['src']}, 'main': ['d.tex'], 'args': ['--list-unknown', '--packages', '*'], 'spec': {}})
+    a = t2t.run_case({'src': case['src'], 'opts': {'pack': '*', 'unkn': True}, 'multi': False, 'want_toks': False})
+    return r, a
+
+def shell_cases(ctx):
+    rng = ctx.rng
+    import gen
+    names = gen.Names(rng)
+    cases = []
+    for _ in range(ctx.scale(12, 200)):
+        envs = rng.sample(['my remark', 'proof of claim', 'claim', 'remarque', 'long env name here', 'x y'], 2)
+        src = '%s \\mycmd{%s} \\begin{%s} %s \\end{%s}\n\\foo %s \\begin{%s}\n%s \\zzz\n\\end{%s} $\\mathonly$ %s\n' % (
+            names.word(), names.word(), envs[0], names.word(), envs[0], names.word(), envs[1], names.word(), envs[1], names.word())
+        cases.append({'src': src})
+    for c, (r, a) in zip(cases, ctx.pmap(shell_list, cases)):
+        ctx.case(('shell', c['src'])); ctx.count('shell_list_cases')
+        if r['rc'] != 0 or a['outcome'] != 'ok':
+            continue
+        got = [l for l in r['stdout'].split('\n') if l != '' and not l.startswith('===')]
+        want = [l for l in a['txt'].split('\n') if l != '']
+        if got != want:
+            ctx.violation('yalafi.shell --list-unknown prints %r, the list of the library is %r' % (got, want), src=c['src'], opts={}, kind='shell-list')
 
 def judge_witness(w):
     c = {'src': w['src'], 'opts': dict(w.get('opts') or {}, unkn=True), 'multi': False}
@@ -63,6 +90,12 @@ def judge_witness(w):
 
 def replay(data):
     v = data['violation']
+    if v.get('kind') == 'shell-list':
+        r, a = shell_list({'src': v['src']})
+        got = [l for l in r['stdout'].split('\n') if l != '' and not l.startswith('===')]
+        want = [l for l in (a.get('txt') or '').split('\n') if l != '']
+        print('ok' if got == want else 'shell prints %r, library %r' % (got, want))
+        return got == want
     f = judge_witness({'src': v['src'], 'opts': v.get('opts'), 'expect': v.get('expected', [])})
     print('\n'.join(f) if f else 'ok')
     return not f
